@@ -622,7 +622,89 @@ class Interp:
             pc = self.prog.consts.get(c["uneval"])
             if pc is not None and c.get("promoted") is None:
                 return self.const_from_fact(pc)
+            if c.get("promoted") is not None:
+                pv = self.eval_promoted(c["uneval"], c["promoted"])
+                if pv is not None:
+                    return pv
         return Top(tyj)
+
+    def eval_promoted(self, fnpath, idx):
+        """value of a promoted constant whose bytes could not be decoded: evaluate its straight-line MIR body.
+        References become 'constref' nodes, materialised on the heap when the operand is used."""
+        fn = self.prog.fns.get(fnpath)
+        if fn is None or idx >= len(fn.get("promoted") or []):
+            return None
+        body = fn["promoted"][idx]
+        env = {}
+        b = 0
+        for _ in range(64):
+            blk = body["blocks"][b]
+            for s in blk["stmts"]:
+                if "assign" not in s:
+                    return None
+                pl, rv = s["assign"]
+                if pl["proj"]:
+                    return None
+                v = self._promoted_rvalue(env, rv)
+                if v is None:
+                    return None
+                env[pl["local"]] = v
+            t = blk["term"]
+            if t is None:
+                return None
+            if "goto" in t:
+                b = t["goto"]
+                continue
+            if "return" in t:
+                return env.get(0)
+            return None
+        return None
+
+    def _promoted_operand(self, env, op):
+        if "const" in op:
+            return self.const_val(op["const"])
+        pl = op.get("copy") or op.get("move")
+        if pl is None or pl["proj"]:
+            return None
+        return env.get(pl["local"])
+
+    def _promoted_rvalue(self, env, rv):
+        if "use" in rv:
+            return self._promoted_operand(env, rv["use"])
+        if "ref" in rv:
+            pl = rv["ref"]["place"]
+            if not pl["proj"]:
+                v = env.get(pl["local"])
+                return None if v is None else Opaque.make("constref", arr=v)
+            if len(pl["proj"]) == 1 and pl["proj"][0].get("deref"):
+                return env.get(pl["local"])      # &*x == x
+            return None
+        if "aggregate" in rv:
+            ag = rv["aggregate"]
+            fs = [self._promoted_operand(env, o) for o in ag["fields"]]
+            if any(f is None for f in fs):
+                return None
+            if ag["kind"] == "adt":
+                return AdtVal(ag["adt"], ag["variant"], fs, "adt", ag.get("variant_name"))
+            if ag["kind"] == "tuple":
+                return TupleVal(fs)
+            if ag["kind"] == "array":
+                return ArrayVal(fs, len(fs), ag.get("elem"))
+        return None
+
+    def materialise_const(self, st, v):
+        """turn 'constref' nodes of a constant tree into heap references"""
+        if isinstance(v, Opaque) and v.kind == "constref":
+            return RefVal(st.new_heap(self.materialise_const(st, v.get("arr"))), False)
+        if isinstance(v, AdtVal) and v.fields:
+            fs = [self.materialise_const(st, f) for f in v.fields]
+            if any(a is not b for a, b in zip(fs, v.fields)):
+                return AdtVal(v.path, v.variant, fs, v.kind, v.vname)
+        elif isinstance(v, TupleVal) and v.fields:
+            fs = [self.materialise_const(st, f) for f in v.fields]
+            if any(a is not b for a, b in zip(fs, v.fields)):
+                return TupleVal(fs)
+        return v
 
     def const_from_fact(self, pc):
         return self.const_val({"ty": pc["ty"], "val": pc["value"] if pc["value"] and pc["value"].get("kind") != "scalar" else None,
@@ -643,8 +725,9 @@ class Interp:
             elif isinstance(v, IntVal):
                 v = v.fresh()
             if isinstance(v, Opaque) and v.kind == "constref":
-                loc = st.new_heap(v.get("arr"))
-                return RefVal(loc, False)
+                return self.materialise_const(st, v)
+            if isinstance(v, (AdtVal, TupleVal)):
+                return self.materialise_const(st, v)
             if isinstance(v, Opaque) and v.kind == "constrefref":
                 loc = st.new_heap(v.get("arr"))
                 loc2 = st.new_heap(RefVal(loc, False))
